@@ -377,6 +377,44 @@ def stmin_raised_under_limiter(rng):
     return fails, {'scenario': 'stmin_raised_under_limiter'}
 
 
+def early_wait_func(rng):
+    """started layer with a user wait_func that returns early (an interruptible wait, a sleeper capped at 1 ms): the separation time is
+    enforced by the clock, not by trusting the sleep - successive Consecutive Frames still reach the CAN layer at least STmin apart"""
+    import queue
+    stamps = []
+    qin = queue.Queue()
+
+    def rxfn(timeout):
+        try:
+            return qin.get(timeout=timeout) if timeout else qin.get_nowait()
+        except queue.Empty:
+            return None
+
+    def txfn(m):
+        d = bytes(m.data)
+        if d[0] >> 4 == 2:
+            stamps.append(_time.perf_counter())
+        if d[0] >> 4 == 1:
+            qin.put(isotp.CanMessage(arbitration_id=0x222, data=bytes([0x30, 0, 40])))       # everything granted, 40 ms apart
+    a = isotp.Address(isotp.AddressingMode.Normal_11bits, txid=0x111, rxid=0x222)
+    L = isotp.TransportLayer(rxfn=rxfn, txfn=txfn, address=a, params={'wait_func': lambda d: _time.sleep(min(d, 0.001))}, read_timeout=0.02)
+    fails = []
+    try:
+        L.start()
+        L.send(bytes(range(48)))                    # First Frame + 6 Consecutive Frames
+        t0 = _time.time()
+        while _time.time() - t0 < 3.0 and L.transmitting():
+            _time.sleep(0.01)
+        gaps = [b - a_ for a_, b in zip(stamps, stamps[1:])]
+        if L.transmitting() or len(stamps) != 6:
+            fails.append(('transfer-not-completed', 'paced transfer with an early-returning wait_func: %d of 6 Consecutive Frames after 3 s' % len(stamps)))
+        elif min(gaps) < 0.039:
+            fails.append(('stmin-not-respected', 'wait_func returning after 1 ms: Consecutive Frames %.1f ms apart, separation time 40 ms' % (min(gaps) * 1000)))
+    finally:
+        L.stop()
+    return fails, {'scenario': 'early_wait_func'}
+
+
 # ---------------------------------------------------------------- C10
 def positional_process(rng):
     """process(rx_timeout, do_rx, do_tx) called with positional arguments on the threaded class (not started): same meaning as on the
@@ -1190,10 +1228,10 @@ def failed_kernel_bind(rng):
 
 SCENARIOS = {
     'C01': [reload_midstream], 'C04': [reload_midstream, txfn_raises, overflow_while_streaming], 'C02': [tuple_iterable, huge_bytes_payload], 'C17': [tuple_iterable, no_buffering], 'C03': [blocked_recv, fc_not_throttled, idle_stop_receiving_threaded, very_long_reception], 'C06': [fc_not_throttled, raising_handler_interrupt],
-    'C05': [clear_midreception], 'C07': [retimed, legacy_rx_deadline], 'C08': [slow_generator, stmin_raised_under_limiter], 'C10': [positional_process, very_long_reception], 'C12': [set_address_standby, stop_sending_while_streaming],
+    'C05': [clear_midreception], 'C07': [retimed, legacy_rx_deadline], 'C08': [slow_generator, stmin_raised_under_limiter, early_wait_func], 'C10': [positional_process, very_long_reception], 'C12': [set_address_standby, stop_sending_while_streaming],
     'C13': [send_before_start, functional_to_threaded], 'C14': [legacy_sleep_timing, stop_with_backlog, start_after_worker_crash], 'C11': [threaded_receiver_times_out, dup_fc_during_standby], 'C18': [listen_switch], 'C15': [bystander_layer, slow_txfn], 'C19': [failed_kernel_bind], 'C20': [failed_kernel_bind],
 }
-REPS = {'huge_bytes_payload': 2, 'no_buffering': 1, 'functional_to_threaded': 4, 'start_after_worker_crash': 1, 'overflow_while_streaming': 2, 'stop_sending_while_streaming': 2, 'very_long_reception': 1, 'stop_with_backlog': 1, 'threaded_receiver_times_out': 2, 'idle_stop_receiving_threaded': 2, 'failed_kernel_bind': 6, 'blocked_recv': 4, 'send_before_start': 3, 'legacy_sleep_timing': 1, 'positional_process': 1}
+REPS = {'early_wait_func': 2, 'huge_bytes_payload': 2, 'no_buffering': 1, 'functional_to_threaded': 4, 'start_after_worker_crash': 1, 'overflow_while_streaming': 2, 'stop_sending_while_streaming': 2, 'very_long_reception': 1, 'stop_with_backlog': 1, 'threaded_receiver_times_out': 2, 'idle_stop_receiving_threaded': 2, 'failed_kernel_bind': 6, 'blocked_recv': 4, 'send_before_start': 3, 'legacy_sleep_timing': 1, 'positional_process': 1}
 TEXT = {f.__name__: ' '.join(f.__doc__.split()) for fs in SCENARIOS.values() for f in fs}
 
 
